@@ -5,6 +5,7 @@ from ..sm2gen import Gen, rb, b32, N, rscalar
 from ..run import Check, generic_replay
 
 PROP = "C02"
+T256_ = 1 << 256
 RULES = ["k_ge_n", "k_zero", "r_zero", "rk_n", "s_zero"]
 
 
@@ -57,6 +58,20 @@ def gen(chk, tier):
                 continue
             e = e_for_r(k, r)
             g.one("rk_near_n", "sm2.sign", kind="hashed", priv=b32(d), e=b32(e), script=sm2gen.script_of([k, rscalar(rng)]))
+    # (1d) boundary and word-structured nonces and keys that MUST be accepted as the first candidate
+    # (k in [1, n-1]: 1, 2, n-1, n-2, powers of two, limbs with zero halves, ...), and their out-of-range
+    # neighbours that must be skipped
+    from ..sm2gen import limb_structured
+    edge = [1, 2, 3, N - 1, N - 2, N - 3, 1 << 32, 1 << 64, 1 << 128, 1 << 192, 1 << 255, (1 << 32) - 1, (1 << 64) - 1]
+    struct = [v % N for v in limb_structured(rng, 12 if q else 200)]
+    for k in edge + [v for v in struct if v]:
+        d = rng.choice([rscalar(rng), rscalar(rng), (rng.choice(struct) % (N - 2)) + 1])
+        g.one("nonce_edge_accept", "sm2.sign", kind="hashed", priv=b32(d), e=rb(rng, 32),
+              script=sm2gen.script_of([k, rscalar(rng)]))
+    for k in [N, N + 1, T256_ - 1] + [N - 1 + v for v in limb_structured(rng, 6 if q else 100, maxbits=224)]:
+        d = rscalar(rng)
+        g.one("nonce_edge_skip", "sm2.sign", kind="hashed", priv=b32(d), e=rb(rng, 32),
+              script=sm2gen.script_of([k, rscalar(rng), rscalar(rng)]))
     # (1c) x1 injected through the verification hook: corners of r = (e + x1) mod n that no nonce
     # reaches (e + x1 >= 2n needs x1 in the top 2^-32 sliver of the field), and x1 in the gap [n, p)
     from ..sm2gen import P
@@ -86,6 +101,8 @@ def gen(chk, tier):
             ("n_plus_1", b32(N + 1)), ("max", b32((1 << 256) - 1)), ("empty", []), ("short_zero", [0] * 5),
             ("short31", rb(rng, 31)), ("short1", [7]), ("long33_valid", [0] + b32(rscalar(rng))),
             ("long33", [1] + rb(rng, 32)), ("long64", rb(rng, 64))]
+    keys += [("structured_valid", b32((v % (N - 2)) + 1)) for v in limb_structured(rng, 6 if q else 100)]
+    keys += [("structured_over", b32(N - 2 + v)) for v in limb_structured(rng, 6 if q else 100, maxbits=224)]
     for name, key in keys:
         g.one("key_" + name, "sm2.sign", kind="hashed", priv=key, e=e,
               script=sm2gen.script_of([rscalar(rng), rscalar(rng)]))
